@@ -13,6 +13,8 @@ the RNG spy and (b) the RNG stub feeding hostile uniform numbers. Oracles:
 """
 import decimal
 
+import math
+
 import numpy as np
 
 from .. import core, rngctl
@@ -238,6 +240,40 @@ def run(ctx):
         norm_ref = float(1 / (b_ / a_).ln()) if p_ == 1 else float((1 - D(p_)) / (b_ ** (1 - D(p_)) - a_ ** (1 - D(p_))))
         if not (worst_h <= 1e-9 and abs(n1 - norm_ref) <= 1e-9 * abs(norm_ref)):
             ctx.violation("history", f"after editing the spectrum object ({what} -> {val}) Spectra still samples / normalises for the earlier spectrum: max |F - u| = {worst_h:.3e}, norm {n1!r} (expected {norm_ref!r}) for index {spc.index}, bounds ({spc.lower_bound}, {spc.upper_bound})", wit)
+    # ---- batch sizes (around powers of two, where block-wise processing has its seams): every event of
+    #      a large batch is the image of its own uniform number
+    for p_, lo_, hi_ in ((2.0, 7.0, 11.0), (1.0, 6.0, 12.0), (0.5, 8.0, 10.0)):
+        for N in (8192, 8193, 65535, 65536, 65537, 131072, 150001, 262144):
+            cfgN = NssConfig()
+            cfgN.simulation.spectrum = Simulation.PowerSpectrum(index=p_, lower_bound=lo_, upper_bound=hi_)
+            cur.clear()
+            cur.update(kind="power", lo=lo_, hi=hi_)
+            np.random.seed(int(rng.integers(2**31)))
+            try:
+                with rngctl.spy() as sp:
+                    leN, _, _ = S.energy_spectra(cfgN.simulation.spectrum, N) if False else call(cfgN, N)
+                uN = np.minimum(np.concatenate([np.ravel(d) for d in sp.draws()]), 1.0)
+            except PostBroken:
+                ctx.violation(cur.get("fail", "post"), f"power law index={p_} bounds=({lo_},{hi_}), N={N}: post-condition '{cur.get('fail', 'post')}' broken", {"N": N})
+                continue
+            except Exception as e:
+                ctx.exception("raises", f"power law index={p_}, N={N} raised", e, {"N": N})
+                continue
+            leN = np.asarray(leN, dtype=np.float64)
+            ctx.count("sizes", N)
+            if leN.shape != (N,) or uN.size != N:
+                ctx.violation("shape", f"power law N={N}: returned shape {leN.shape}, {uN.size} uniform numbers drawn", {"N": N})
+                continue
+            mp_ = 1.0 - p_
+            ln10 = math.log(10.0)
+            if mp_ == 0:
+                F = (leN - lo_) / (hi_ - lo_)
+            else:
+                F = np.expm1(mp_ * ln10 * (leN - lo_)) / math.expm1(mp_ * ln10 * (hi_ - lo_))
+            badN = np.flatnonzero(~(np.abs(F - uN) <= 1e-9))
+            if badN.size:
+                i = int(badN[0])
+                ctx.violation("cdf", f"power law index={p_} bounds=({lo_},{hi_}), batch of N={N}: event {i} drew u={uN[i]!r} and got log_e_nu={leN[i]!r}, F(E)={F[i]!r} ({badN.size} of {N} events)", {"N": N, "index": p_, "event": i})
     # N = 0 and N = 1 for power law
     for N in (0, 1, 2):
         cfg = NssConfig()
@@ -255,7 +291,7 @@ def run(ctx):
     ctx.observe("ill_conditioned_index_cases_judged_with_widened_band", nobs_ill)
     ctx.observe("accepted_by_log_energy_band_1e-12", nrepr)
     ctx.count("contracts", ncontract["n"])
-    for m in ("integral-unchanged", "plots", "mono", "bounds", "product", "cdf", "monotone", "no-raise", "contracts", "history"):
+    for m in ("sizes", "integral-unchanged", "plots", "mono", "bounds", "product", "cdf", "monotone", "no-raise", "contracts", "history"):
         ctx.require(m)
     return ctx.finish(
         rule="(index, lower, upper) from a boundary catalogue (index in {0,.5,.999,1,1.001,...,4} x 5 bounds) plus seeded random; per configuration 35 uniform numbers (14 hostile incl. 0, denormals, 1-2^-53, 1; grid; random) through the RNG stub and 40 from the real generator observed by the RNG spy; a case is one distinct (index, bounds, u)",
